@@ -98,6 +98,7 @@ type HarnessResult struct {
 	Covers                          map[string]*Finding
 	Queries, NSat, NUnsat, NUnknown int
 	SolverWall                      time.Duration
+	MaxQuery                        time.Duration
 	Wall                            time.Duration
 	Workers                         int
 	Err                             string
@@ -224,6 +225,9 @@ func runHarness(L *Loaded, H *Harness, sem chan struct{}, maxWorkers int, debug 
 		res.NUnsat += m.solver.NUnsat
 		res.NUnknown += m.solver.NUnknown
 		res.SolverWall += m.solver.Wall
+		if m.solver.MaxWall > res.MaxQuery {
+			res.MaxQuery = m.solver.MaxWall
+		}
 		res.Workers++
 		rmu.Unlock()
 	}
